@@ -1,6 +1,7 @@
 package main
 
 import (
+	"go/types"
 	"fmt"
 	"go/token"
 	"strings"
@@ -28,6 +29,31 @@ func c10(c *Ctx) {
 		// Match: every return is BinOp NEQ (X, sm.invertMatch)
 		n := 0
 		kinds := map[string]bool{}
+		isInv := func(v ssa.Value) bool { return strings.HasSuffix(pathOf(v), ".invertMatch") }
+		classify := func(x ssa.Value) string {
+			switch {
+			case strings.Contains(exprString(x, 0), "MatchString"):
+				return "regex"
+			case strings.Contains(exprString(x, 0), "strings.HasPrefix"):
+				return "prefix"
+			case asBinOp(x, token.EQL) != nil:
+				return "exact"
+			}
+			return "?"
+		}
+		var walkMatch func(x ssa.Value, pos token.Pos, d int)
+		walkMatch = func(x ssa.Value, pos token.Pos, d int) {
+			if ph, ok := x.(*ssa.Phi); ok && d < 6 {
+				for _, e := range ph.Edges {
+					walkMatch(e, pos, d+1)
+				}
+				return
+			}
+			n++
+			what := classify(x)
+			kinds[what] = true
+			r.Check("Match:"+what+":inverted-uniformly", true, pos, "result is (<"+what+" match>) != sm.invertMatch")
+		}
 		var walkRet func(v ssa.Value, blk *ssa.BasicBlock)
 		walkRet = func(v ssa.Value, blk *ssa.BasicBlock) {
 			if ph, ok := v.(*ssa.Phi); ok {
@@ -36,26 +62,18 @@ func c10(c *Ctx) {
 				}
 				return
 			}
-			n++
 			b := asBinOp(v, token.NEQ)
-			ok := b != nil && (strings.HasSuffix(pathOf(b.Y), ".invertMatch") || strings.HasSuffix(pathOf(b.X), ".invertMatch"))
-			what := "?"
-			if b != nil {
-				x := b.X
-				if strings.HasSuffix(pathOf(b.X), ".invertMatch") {
-					x = b.Y
-				}
-				switch {
-				case strings.Contains(exprString(x, 0), "MatchString"):
-					what = "regex"
-				case strings.Contains(exprString(x, 0), "strings.HasPrefix"):
-					what = "prefix"
-				case asBinOp(x, token.EQL) != nil:
-					what = "exact"
-				}
+			if b == nil || !(isInv(b.X) || isInv(b.Y)) {
+				n++
+				kinds["?"] = true
+				r.Check("Match:?:inverted-uniformly", false, v.Pos(), "result "+pathOf(v)+" is not (<match>) != sm.invertMatch")
+				return
 			}
-			kinds[what] = true
-			r.Check("Match:"+what+":inverted-uniformly", ok, v.Pos(), "result is (<"+what+" match>) != sm.invertMatch")
+			x := b.X
+			if isInv(b.X) {
+				x = b.Y
+			}
+			walkMatch(x, v.Pos(), 0)
 		}
 		eachInstr(mt, func(in ssa.Instruction) {
 			if rt, ok := in.(*ssa.Return); ok {
@@ -85,17 +103,80 @@ func c10(c *Ctx) {
 			r.Fail("NewStringMatch:literal", ns.Pos(), "returned StringMatch literal not found")
 			return
 		}
-		inv := exprString(lit["invertMatch"], 0)
-		r.Check("NewStringMatch:invert", strings.Contains(inv, "strings.HasPrefix(s,\"!\")"), ns.Pos(), "invertMatch = strings.HasPrefix(s, \"!\"): "+inv)
+		// idioms for "S has prefix/suffix lit" and "S without it" (HasPrefix+slice, CutPrefix, TrimPrefix, ...)
+		litIs := func(v ssa.Value, lit string) bool { c, ok := constString(v); return ok && c == lit }
+		prefixTest := func(v ssa.Value, lit string, suffix bool) (ssa.Value, bool) {
+			has, cut := "strings.HasPrefix", "strings.CutPrefix"
+			if suffix {
+				has, cut = "strings.HasSuffix", "strings.CutSuffix"
+			}
+			switch x := v.(type) {
+			case *ssa.Call:
+				if isCall(x, has) && litIs(x.Call.Args[1], lit) {
+					return x.Call.Args[0], true
+				}
+			case *ssa.Extract:
+				if c, ok := x.Tuple.(*ssa.Call); ok && x.Index == 1 && isCall(c, cut) && litIs(c.Call.Args[1], lit) {
+					return c.Call.Args[0], true
+				}
+			}
+			return nil, false
+		}
+		// stripped: v is S with the prefix/suffix lit removed; guarded says whether that needs the test to have succeeded
+		stripped := func(v ssa.Value, lit string, suffix bool) (src ssa.Value, needsGuard, ok bool) {
+			cut, trim := "strings.CutPrefix", "strings.TrimPrefix"
+			if suffix {
+				cut, trim = "strings.CutSuffix", "strings.TrimSuffix"
+			}
+			switch x := v.(type) {
+			case *ssa.Extract:
+				if c, isC := x.Tuple.(*ssa.Call); isC && x.Index == 0 && isCall(c, cut) && litIs(c.Call.Args[1], lit) {
+					return c.Call.Args[0], false, true
+				}
+			case *ssa.Call:
+				if isCall(x, trim) && litIs(x.Call.Args[1], lit) {
+					return x.Call.Args[0], false, true
+				}
+			case *ssa.Slice:
+				if !suffix {
+					if lo, isC := constInt(x.Low); isC && lo == int64(len(lit)) && x.High == nil {
+						return x.X, true, true
+					}
+				} else if x.High != nil {
+					if b := asBinOp(x.High, token.SUB); b != nil {
+						if k, isC := constInt(b.Y); isC && k == int64(len(lit)) && strings.Contains(pathOf(b.X), "builtin len") {
+							if lo, isL := constInt(x.Low); x.Low == nil || (isL && lo == 0) {
+								return x.X, true, true
+							}
+						}
+					}
+				}
+			}
+			return nil, false, false
+		}
+		// testKnown: a fact at block b says the prefix/suffix test of lit is (want)
+		testKnown := func(b *ssa.BasicBlock, lit string, suffix, want bool) bool {
+			for _, f := range factsAt(b) {
+				if f.Op == token.ILLEGAL {
+					if _, ok := prefixTest(f.V, lit, suffix); ok && f.True == want {
+						return true
+					}
+				}
+			}
+			return false
+		}
+		_, okInv := prefixTest(lit["invertMatch"], "!", false)
+		r.Check("NewStringMatch:invert", okInv && func() bool { src, _ := prefixTest(lit["invertMatch"], "!", false); return paramIndex(ns, src) == 0 }(), ns.Pos(), "invertMatch = (the pattern starts with '!'): "+exprString(lit["invertMatch"], 0))
 		// '!' is cut before the other prefixes are examined
 		okCut := false
 		eachInstr(ns, func(in ssa.Instruction) {
-			if sl, ok := in.(*ssa.Slice); ok {
-				if lo, isC := constInt(sl.Low); isC && lo == 1 && sl.High == nil {
-					cs := strings.Join(condStrings(sl.Block()), " && ")
-					if strings.Contains(cs, "strings.HasPrefix(s,\"!\")=true") {
-						okCut = true
-					}
+			v, isV := in.(ssa.Value)
+			if !isV {
+				return
+			}
+			if src, guard, ok := stripped(v, "!", false); ok && paramIndex(ns, src) == 0 {
+				if !guard || testKnown(in.Block(), "!", false, true) {
+					okCut = true
 				}
 			}
 		})
@@ -103,9 +184,8 @@ func c10(c *Ctx) {
 		// regex: compiled from the text after "regex:"
 		okRe := false
 		for _, cl := range callsTo(ns, "regexp.MustCompile", "regexp.Compile") {
-			cs := strings.Join(condStrings(cl.Block()), " && ")
-			if sl, ok := cl.Common().Args[0].(*ssa.Slice); ok {
-				if lo, isC := constInt(sl.Low); isC && lo == int64(len("regex:")) && strings.Contains(cs, "\"regex:\")=true") {
+			if _, guard, ok := stripped(cl.Common().Args[0], "regex:", false); ok {
+				if testKnown(cl.Block(), "regex:", false, true) || !guard && testKnown(cl.Block(), "regex:", false, true) {
 					okRe = true
 				}
 			}
@@ -114,14 +194,13 @@ func c10(c *Ctx) {
 		// prefix: trailing '*' cut, only when not a regex
 		okPre := false
 		eachInstr(ns, func(in ssa.Instruction) {
-			if sl, ok := in.(*ssa.Slice); ok && sl.High != nil {
-				if b := asBinOp(sl.High, token.SUB); b != nil {
-					if one, isC := constInt(b.Y); isC && one == 1 && strings.Contains(pathOf(b.X), "builtin len") {
-						cs := strings.Join(condStrings(sl.Block()), " && ")
-						if strings.Contains(cs, "strings.HasSuffix") && strings.Contains(cs, "\"*\")=true") && strings.Contains(cs, "\"regex:\")=false") {
-							okPre = true
-						}
-					}
+			v, isV := in.(ssa.Value)
+			if !isV {
+				return
+			}
+			if _, _, ok := stripped(v, "*", true); ok {
+				if testKnown(in.Block(), "*", true, true) && testKnown(in.Block(), "regex:", false, false) {
+					okPre = true
 				}
 			}
 		})
@@ -251,7 +330,16 @@ func c10(c *Ctx) {
 			if !g.passOn {
 				failSucc = ifi.Block().Succs[0]
 			}
-			r.Check("gate:"+g.name+":failing-skips-filter", failSucc == next, g.call.Pos(), "a metric failing "+g.name+" continues with the next filter")
+			isAct := func(in ssa.Instruction) bool {
+				for _, a := range actions {
+					if a == in {
+						return true
+					}
+				}
+				return false
+			}
+			stopAt := map[*ssa.BasicBlock]bool{next: true}
+			r.Check("gate:"+g.name+":failing-skips-filter", failSucc == next || !feasiblyReaches(ifi.Block(), failSucc, nil, stopAt, isAct), g.call.Pos(), "a metric failing "+g.name+" reaches no action of this filter (it continues with the next filter)")
 			// the gate is entered on every path to an action: either its call's branch dominates the
 			// action, or (optional gate) the list-length test guarding the call does
 			entry := ssa.Instruction(ifi)
@@ -261,7 +349,17 @@ func c10(c *Ctx) {
 				}
 			}
 			for _, a := range actions {
-				r.Check("gate:"+g.name+":before:"+actionName(a), instrDominates(entry, a), a.Pos(), "the "+g.name+" gate is passed before "+actionName(a)+" in the same filter iteration (its failing edge leaves the iteration)")
+				a := a
+				bypass := false
+				if !instrDominates(entry, a) {
+					// not a dominator in the plain CFG: is the action feasibly reachable from the loop head around the gate?
+					for _, body := range next.Succs {
+						if next.Dominates(body) && body != next && feasiblyReaches(next, body, map[*ssa.BasicBlock]bool{entry.Block(): true}, stopAt, func(in ssa.Instruction) bool { return in == a }) {
+							bypass = true
+						}
+					}
+				}
+				r.Check("gate:"+g.name+":before:"+actionName(a), !bypass, a.Pos(), "the "+g.name+" gate is passed before "+actionName(a)+" in the same filter iteration (no feasible path from the loop head reaches the action around the gate)")
 			}
 			// the argument: metric name / tags of this metric
 			a := g.call.Common().Args
@@ -466,13 +564,56 @@ func c10(c *Ctx) {
 			})
 			r.Check("elements:"+F+":stored-only-when-kept", !bad, cl.Pos(), "elements are stored only when the filter kept them")
 			// re-keyed after filtering
-			okKey := false
-			for _, cc := range callsTo(cl, "gostatsd.FormatTagsKey") {
-				if instrDominates(uc, cc) {
-					okKey = true
+			// every key under which a series is looked up or stored in the rebuilt map is, on every
+			// path, FormatTagsKey(...) computed after the filter ran
+			okKey, nKeys := true, 0
+			whyKey := ""
+			var keyLeaves func(v ssa.Value, d int)
+			seenKP := map[*ssa.Phi]bool{}
+			keyLeaves = func(v ssa.Value, d int) {
+				switch x := v.(type) {
+				case *ssa.Phi:
+					if seenKP[x] || d > 8 {
+						return
+					}
+					seenKP[x] = true
+					for _, e := range x.Edges {
+						keyLeaves(e, d+1)
+					}
+				case *ssa.Call:
+					if !(isCall(x, "gostatsd.FormatTagsKey") && instrDominates(uc, x)) {
+						okKey = false
+						whyKey = "key computed by " + shortCallee(x)
+					} else {
+						a := x.Call.Args
+						if !(strings.HasSuffix(pathOf(a[0]), ".Source") && strings.HasSuffix(pathOf(a[1]), ".Tags")) {
+							okKey = false
+							whyKey = "FormatTagsKey(" + pathOf(a[0]) + ", " + pathOf(a[1]) + ")"
+						}
+					}
+				default:
+					okKey = false
+					whyKey = "key " + pathOf(v) + " is not a recomputed tags key"
 				}
 			}
-			r.Check("elements:"+F+":rekeyed", okKey, cl.Pos(), "the tags key is recomputed from the filtered source and tags")
+			eachInstr(cl, func(in ssa.Instruction) {
+				var m, k ssa.Value
+				switch x := in.(type) {
+				case *ssa.MapUpdate:
+					m, k = x.Map, x.Key
+				case *ssa.Lookup:
+					m, k = x.X, x.Index
+				default:
+					return
+				}
+				mt, ok := m.Type().Underlying().(*types.Map)
+				if !ok || isAggType(mt.Elem()) == "" {
+					return
+				}
+				nKeys++
+				keyLeaves(k, 0)
+			})
+			r.Check("elements:"+F+":rekeyed", okKey && nKeys >= 1, cl.Pos(), "the tags key of every lookup / store in the rebuilt map is recomputed from the filtered source and tags"+map[bool]string{true: "", false: ": " + whyKey}[okKey])
 		}
 		// collision merge = C07 rules restricted to this function
 		sub := &Ctx{W: w, Prop: c.Prop, Tier: c.Tier, known: c.known}
